@@ -15,7 +15,7 @@ RULE = ("count-min: streams of add(x, delta) / batch_add(list, delta) over int a
         "differs from 1.  counter: streams of add(v) (30% of cases also batch_add) against PrimitiveConstrainedCounter(bound), "
         "default_counter after every prefix compared; non-trivial = the number of distinct values reaches the bound")
 THEOREMS = ["C15_lower", "C15_upper", "C15_defined", "C15_query_is_min", "C15_rows", "C15_cell", "C15_support", "C15_shape",
-            "C15_check_sound", "C15_model_ok", "C15_b_no_over", "C15_b_exact", "C15_b_exact_boundary", "C15_b_size",
+            "C15_check_sound", "C15_model_ok", "C15_obs_rows_agree", "C15_b_no_over", "C15_b_exact", "C15_b_exact_boundary", "C15_b_size",
             "C15_b_frozen", "C15_b_no_over_ops", "C15_b_exact_ops", "C15_b_batch_size_refuted",
             "C15_b_exact_at_bound_refuted", "C15_b_check_sound", "C15_b_model_ok"]
 HEADER = ("From Coq Require Import List NArith ZArith.\nFrom Outrank Require Import Sketch.CMS Sketch.Bounded.\n"
